@@ -680,101 +680,7 @@ func cmpIntro(ref, eng any, path string) []introDiff {
 		if !ok {
 			return other(fmt.Sprintf("a list of %d items", len(r)))
 		}
-		var out []introDiff
-		// maximum bipartite matching between reference items and engine items that compare
-		// equal (the tolerances make "equal" non-transitive, so greedy pairing is not enough)
-		compat := make([][]int, len(r))
-		for i, it := range r {
-			rn, rNamed := "", false
-			if rm, ok := it.(map[string]any); ok {
-				rn, rNamed = rm["name"].(string)
-			}
-			for j, cand := range l {
-				if rNamed {
-					if cm, ok := cand.(map[string]any); ok {
-						if cn, ok := cm["name"].(string); ok && cn != rn {
-							continue
-						}
-					}
-				}
-				if len(cmpIntro(it, cand, path)) == 0 {
-					compat[i] = append(compat[i], j)
-				}
-			}
-		}
-		matchOfEng := make([]int, len(l))
-		for j := range matchOfEng {
-			matchOfEng[j] = -1
-		}
-		var try func(i int, seen []bool) bool
-		try = func(i int, seen []bool) bool {
-			for _, j := range compat[i] {
-				if seen[j] {
-					continue
-				}
-				seen[j] = true
-				if matchOfEng[j] < 0 || try(matchOfEng[j], seen) {
-					matchOfEng[j] = i
-					return true
-				}
-			}
-			return false
-		}
-		for i := range r {
-			try(i, make([]bool, len(l)))
-		}
-		used := make([]bool, len(l))
-		matchedRef := make([]bool, len(r))
-		for j, i := range matchOfEng {
-			if i >= 0 {
-				used[j], matchedRef[i] = true, true
-			}
-		}
-		var unmatched []any
-		for i, it := range r {
-			if !matchedRef[i] {
-				unmatched = append(unmatched, it)
-			}
-		}
-		for _, it := range unmatched {
-			// explain against the closest unmatched candidate: same name when names were selected,
-			// otherwise the candidate with the fewest differences
-			rm, isObj := it.(map[string]any)
-			best, bestN := -1, 0
-			var bestDiffs []introDiff
-			if isObj {
-				nm, hasName := rm["name"]
-				for j, cand := range l {
-					cm, ok := cand.(map[string]any)
-					if !ok || used[j] {
-						continue
-					}
-					if hasName && cm["name"] != nm {
-						continue
-					}
-					label := path + "[]"
-					if hasName {
-						label = path + "[" + fmt.Sprint(nm) + "]"
-					}
-					d := cmpIntro(it, cand, label)
-					if best < 0 || len(d) < bestN {
-						best, bestN, bestDiffs = j, len(d), d
-					}
-				}
-			}
-			if best >= 0 {
-				used[best] = true
-				out = append(out, bestDiffs...)
-			} else {
-				out = append(out, introDiff{Path: path, Kind: "missing", Want: short(it)})
-			}
-		}
-		for j, cand := range l {
-			if !used[j] {
-				out = append(out, introDiff{Path: path, Kind: "invented", Got: short(cand)})
-			}
-		}
-		return out
+		return cmpSet(r, l, path)
 	case map[string]any:
 		g, ok := eng.(map[string]any)
 		if !ok {
@@ -830,4 +736,143 @@ func cmpIntro(ref, eng any, path string) []introDiff {
 		return nil
 	}
 	return []introDiff{{Path: path, Kind: "other", Want: fmt.Sprintf("<reference produced %T>", ref), Got: short(eng)}}
+}
+
+// explainable is consulted when unmatched list items have to be paired up for the report: a
+// pairing in which every difference is attributed to a recorded finding is preferred over one
+// that merely has few differences. Set by the engine check; nil = no preference.
+var explainable func(d introDiff) bool
+
+func itemName(v any) (string, bool) {
+	if m, ok := v.(map[string]any); ok {
+		n, isStr := m["name"].(string)
+		return n, isStr
+	}
+	return "", false
+}
+
+// bipartite computes a maximum matching; edges[i] lists the right-hand candidates of left item i.
+// It returns matchOfRight (index of the left item matched to each right item, or -1).
+func bipartite(edges [][]int, nRight int) []int {
+	matchOfRight := make([]int, nRight)
+	for j := range matchOfRight {
+		matchOfRight[j] = -1
+	}
+	var try func(i int, seen []bool) bool
+	try = func(i int, seen []bool) bool {
+		for _, j := range edges[i] {
+			if seen[j] {
+				continue
+			}
+			seen[j] = true
+			if matchOfRight[j] < 0 || try(matchOfRight[j], seen) {
+				matchOfRight[j] = i
+				return true
+			}
+		}
+		return false
+	}
+	for i := range edges {
+		try(i, make([]bool, nRight))
+	}
+	return matchOfRight
+}
+
+// cmpSet compares two lists as multisets. The tolerances make "equal" non-transitive, so items
+// are paired by a maximum bipartite matching: first pairs that compare equal, then — among the
+// rest — pairs whose differences are all attributed to recorded findings, then closest pairs.
+func cmpSet(r setList, l []any, path string) []introDiff {
+	var out []introDiff
+	refLeft := make([]int, len(r)) // indices of still unmatched reference items
+	for i := range refLeft {
+		refLeft[i] = i
+	}
+	used := make([]bool, len(l))
+	label := func(it any) string {
+		if n, ok := itemName(it); ok {
+			return path + "[" + n + "]"
+		}
+		return path + "[]"
+	}
+	sameNameOrUnnamed := func(a, b any) bool {
+		an, aok := itemName(a)
+		bn, bok := itemName(b)
+		return !aok || !bok || an == bn
+	}
+	for phase := 0; phase < 2; phase++ {
+		if phase == 1 && explainable == nil {
+			break
+		}
+		edges := make([][]int, len(refLeft))
+		diffs := map[[2]int][]introDiff{}
+		for k, i := range refLeft {
+			for j, cand := range l {
+				if used[j] || !sameNameOrUnnamed(r[i], cand) {
+					continue
+				}
+				d := cmpIntro(r[i], cand, label(r[i]))
+				ok := len(d) == 0
+				if phase == 1 {
+					ok = true
+					for _, x := range d {
+						if !explainable(x) {
+							ok = false
+							break
+						}
+					}
+				}
+				if ok {
+					edges[k] = append(edges[k], j)
+					diffs[[2]int{k, j}] = d
+				}
+			}
+		}
+		match := bipartite(edges, len(l))
+		matched := make([]bool, len(refLeft))
+		for j, k := range match {
+			if k >= 0 {
+				used[j], matched[k] = true, true
+				out = append(out, diffs[[2]int{k, j}]...)
+			}
+		}
+		var rest []int
+		for k, i := range refLeft {
+			if !matched[k] {
+				rest = append(rest, i)
+			}
+		}
+		refLeft = rest
+	}
+	// whatever is left: explain against the closest remaining candidate
+	for _, i := range refLeft {
+		best, bestN := -1, 0
+		var bestDiffs []introDiff
+		if _, isObj := r[i].(map[string]any); isObj {
+			_, named := itemName(r[i])
+			for j, cand := range l {
+				if _, ok := cand.(map[string]any); !ok || used[j] {
+					continue
+				}
+				if named && !sameNameOrUnnamed(r[i], cand) {
+					continue
+				}
+				d := cmpIntro(r[i], cand, label(r[i]))
+				if best < 0 || len(d) < bestN {
+					best, bestN, bestDiffs = j, len(d), d
+				}
+			}
+		}
+		if best >= 0 {
+			used[best] = true
+			out = append(out, bestDiffs...)
+		} else {
+			out = append(out, introDiff{Path: path, Kind: "missing", Want: short(r[i])})
+		}
+	}
+	for j, cand := range l {
+		if !used[j] {
+			out = append(out, introDiff{Path: path, Kind: "invented", Got: short(cand)})
+		}
+	}
+	return out
 }
